@@ -134,3 +134,14 @@ def abstract_child(w, name, kind='plain', mask=0, stored=None):
     c._data_bytes = SC._as_bytes(w, data)
     obs = SC.observe(w, SC.PRUNED, mask, c._hashes, c._depths, data)
     return c, obs
+
+
+def no_verdict(w, why):
+    """the code under contract changed SHAPE in a way a fragment-based (loop cut) obligation cannot follow: no verdict from this
+    obligation - symbolically UNDECIDED (other obligations and the native stand-ins decide), natively the sample is skipped.  Never
+    a claim: a harmless refactoring must not raise an alarm."""
+    from vf.sym import Unsupported
+    from vf.engine import Skip
+    if not w.symbolic:
+        raise Skip()
+    raise Unsupported('fragment shape: ' + why)
